@@ -9,7 +9,7 @@ from props import _worldfam as F
 
 PID = 'C11'
 GENERATORS = ['consts']
-LEAN_TARGETS = ['EosProofs.Props.C11', 'EosProofs.Props.C11World', 'EosProofs.Props.C11Keyed']
+LEAN_TARGETS = ['EosProofs.Props.C11', 'EosProofs.Props.C11World', 'EosProofs.Props.C11Keyed', 'EosProofs.Props.C11Proj']
 DRIVERS = ['drv_world', 'drv_keyed']
 TRUSTED = F.WORLD_TRUSTED
 RULE = ('after each generated history (all parameter sets incl. fleets and source switches) everything is removed in a '
@@ -26,7 +26,7 @@ ASSUMPTIONS = ['tear-down stays outside the class of known finding K1 (an item r
 CLAUSES = {
     'nothing removed influences what remains': 'the Lean spec is a function of the current configuration only (removed_item_no_influence, evalAll_no_items); impl tied to it per step (L1/L2)',
     'removed items and fits can be reused with from-scratch results': 'correspondence: re-used items vs Lean spec; machine level: C01 incremental_eq_scratch',
-    'no service, register, subscription, override or cache retains any entry': 'register level: KeyedStorage (the dict-of-sets all registers are made of) keeps exactly the entries added and not yet removed and no key without a member, after every call history (C11Keyed.inv_run, mem_bucket_*, noEmpty_run, run_no_residue, mem_keys_iff_bucket, rmSet_key_clean), tied to the real class by a per-call differential; message-level model: after the canonical tear-down of every item the dynamic state is empty on the configuration, hence every declarative register content (specs, affectees, direct sets, deps) and every cache entry is empty, and the tear-down is a legal run when projectors let go first (C11World.teardown_all_registers_empty, registers_empty, teardown_all_legal, history_then_teardown); the concrete buckets of affection.py / projection.py, restriction / stat registers and subscriptions: impl-level emptiness walk (enumeration)',
+    'no service, register, subscription, override or cache retains any entry': 'register level: KeyedStorage (the dict-of-sets all registers are made of) keeps exactly the entries added and not yet removed and no key without a member, after every call history (C11Keyed.inv_run, mem_bucket_*, noEmpty_run, run_no_residue, mem_keys_iff_bucket, rmSet_key_clean), and the two maps of the projection register stay converse relations (C11Proj.conv_run, no_one_sided_entry); both tied to the real classes by per-call differentials; message-level model: after the canonical tear-down of every item the dynamic state is empty on the configuration, hence every declarative register content (specs, affectees, direct sets, deps) and every cache entry is empty, and the tear-down is a legal run when projectors let go first (C11World.teardown_all_registers_empty, registers_empty, teardown_all_legal, history_then_teardown); the concrete buckets of affection.py / projection.py, restriction / stat registers and subscriptions: impl-level emptiness walk (enumeration)',
 }
 LEVEL_TEXT = ('Lean: values are functions of the current configuration (an item outside it cannot influence anything; '
               'an empty configuration has an empty value table). Residue freedom itself is checked on the real code by '
@@ -393,10 +393,60 @@ def _keyed(ctx, rep, n, label='keyed'):
         rep.violate('rm_data_set does not drop an empty bucket', {'keyed_ops': ['as 7 -', 'rs 7 -']})
 
 
+def _projpair(ctx, rep, n, label='projpair'):
+    """The real `ProjectionRegister.apply_projector` / `unapply_projector` against `ProjReg` (Keyed.lean); theorem
+    `C11Proj.conv_run`: projector->targets and target->projectors stay converse relations after every history."""
+    C.load_repo()
+    from eos.calculator.projection import ProjectionRegister
+    rnd = ctx.sub_rnd(label)
+    pre = '_ProjectionRegister__'
+    lines, want = [], []
+    for h in range(n):
+        reg = ProjectionRegister()
+        a, b = getattr(reg, pre + 'projector_tgts'), getattr(reg, pre + 'tgt_projectors')
+        lines.append('pnew')
+        want.append('empty | empty')
+        np_, nt = rnd.choice([(2, 3), (3, 4), (5, 6)])
+        ops = []
+        for _ in range(rnd.randint(3, 30)):
+            pr = rnd.randrange(np_)
+            if rnd.random() < 0.5:
+                ts = [rnd.randrange(nt) for _ in range(rnd.randint(0 if rnd.random() < 0.1 else 1, 3))]
+                reg.apply_projector(pr, rnd.choice([list, tuple])(ts))
+                ops.append('pa %d %s' % (pr, ','.join(map(str, ts)) or '-'))
+            else:
+                if pr in a and rnd.random() < 0.4:
+                    ts = sorted(a[pr])
+                    reg.unapply_projector(pr, reg.get_projector_tgts(pr))       # the stored set itself (D17)
+                else:
+                    ts = [rnd.randrange(nt) for _ in range(rnd.randint(0, 3))]
+                    reg.unapply_projector(pr, ts)
+                ops.append('pu %d %s' % (pr, ','.join(map(str, ts)) or '-'))
+            lines.append(ops[-1])
+            want.append(_keyed_dump(a) + ' | ' + _keyed_dump(b))
+            conv = ({(p_, t) for p_ in a for t in a[p_]} == {(p_, t) for t in b for p_ in b[t]})
+            if not conv:
+                rep.violate('projection register: projector->targets and target->projectors are no longer converse '
+                            'relations: %s' % want[-1], {'keyed_ops': list(ops)})
+                return
+        rep.case(sig=('projpair', tuple(ops)) if len(ops) >= 6 else None, sample={'keyed_ops': ops[:12]}, kind='projpair')
+    got = C.run_driver('drv_keyed', '\n'.join(lines) + '\n')
+    if len(got) != len(want):
+        raise C.InfraError('drv_keyed: %d lines for %d ops' % (len(got), len(want)))
+    pos = 0
+    for i, (g, w) in enumerate(zip(got, want)):
+        if lines[i] == 'pnew':
+            pos = i
+        if g != w:
+            rep.disagree('L2:projection-pair', g, w, {'keyed_ops': lines[pos + 1:i + 1]})
+            return
+
+
 def correspondence(ctx):
     rep = ctx.report
     rep.rules.append(RULE)
     _keyed(ctx, rep, ctx.n(400, 8000))
+    _projpair(ctx, rep, ctx.n(300, 6000))
     _teardown(ctx, rep, ['basic', 'fleet', 'fleetheavy', 'projheavy', 'long', 'three-fits-decimal', 'pymods'], ctx.n(35, 700), 'teardown')
     _teardown_restr(ctx, rep, ctx.n(150, 3000))
 
@@ -451,6 +501,22 @@ def _replay_keyed(ops):
     C.load_repo()
     from eos.util.keyed_storage import KeyedStorage
     ks, want = KeyedStorage(), []
+    if ops and ops[0][:2] in ('pa', 'pu'):
+        from eos.calculator.projection import ProjectionRegister
+        reg = ProjectionRegister()
+        a, b = reg._ProjectionRegister__projector_tgts, reg._ProjectionRegister__tgt_projectors
+        for op in ops:
+            t = op.split()
+            d = [] if t[2] == '-' else [int(x) for x in t[2].split(',')]
+            (reg.apply_projector if t[0] == 'pa' else reg.unapply_projector)(int(t[1]), d)
+            want.append(_keyed_dump(a) + ' | ' + _keyed_dump(b))
+        got = C.run_driver('drv_keyed', '\n'.join(ops) + '\n')
+        bad = 0
+        for op, g, w in zip(ops, got, want):
+            print('%-14s model %-34s impl %s' % (op, g, w))
+            bad |= g != w
+        bad |= {(p_, t) for p_ in a for t in a[p_]} != {(p_, t) for t in b for p_ in b[t]}
+        return 1 if bad else 0
     for op in ops:
         t = op.split()
         d = [] if len(t) < 3 or t[2] == '-' else [int(x) for x in t[2].split(',')]
